@@ -530,6 +530,7 @@ func (t *Thread) cancelCtx(c *ctxObj, err Value, vc VC) {
 			t.tick()
 		}
 		c.done.closeVC = vc
+		t.run.commitWaiters(c.done, false)
 	}
 	for _, ch := range c.children {
 		ch.up = nil
